@@ -773,7 +773,7 @@ class GroupedSite(Site):
         # read it into c2JWps for each site before calling Site.change_charge() deleting it
         if charges == 'same':
             # already same charges, so could/should have same `charge_to_JW_parity`
-            if all(p is not None and all(p == c2JWps[0]) for p in c2JWps):
+            if all(p is not None and np.array_equal(p, c2JWps[0]) for p in c2JWps):
                 self.charge_to_JW_parity = c2JWps[0]
         elif charges == 'independent':
             if all(p is not None for p in c2JWps):
@@ -1147,7 +1147,7 @@ def _set_common_charges_charge_to_JW_parity(sites, new_charges, new_mod):
                 # got it: this new charge is just the total number of fermions
                 charge_to_JW_parity = [0] * len(new_charges)
                 charge_to_JW_parity[new_i] = 1
-                return charge_to_JW_parity
+                return np.array(charge_to_JW_parity, int)
             if new_charge_set <= need:
                 new_charge_sets.append(new_charge_set)
                 new_is.append(new_i)
